@@ -68,6 +68,11 @@ def matrices(rng, dim=3, classes=None):
         Mx[k % dim, k % dim] = -1
         out += emit("mirror_axis", Mx)
         out += emit("mirror_rot", T @ Mx)
+        # a mirror combined with a change of units: the determinant is negative AND tiny
+        # (1e-9) or huge, on the far side of any absolute threshold on det
+        MS = (T @ Mx).copy()
+        MS[:dim, :dim] *= (0.5, 1e-3, 1e3)[k]
+        out += emit("mirror_similarity:%g" % (0.5, 1e-3, 1e3)[k], MS)
         A = I.copy()
         A[:dim, :dim] = np.diag(rng.uniform(0.3, 3.0, size=dim))
         out += emit("aniso", A)
